@@ -74,7 +74,7 @@ func ParseStruct(src []byte) (*FileStruct, error) {
 	}
 	fs.File = f
 	lines := bytes.Split(fsrc, []byte("\n"))
-	lineOf := func(p token.Pos) int { return fs.Fset.Position(p).Line }
+	lineOf := func(p token.Pos) int { return fs.Fset.PositionFor(p, false).Line } // //line directives must not shift texts
 	for _, d := range f.Decls {
 		dd := &Decl{Node: d}
 		var doc *ast.CommentGroup
